@@ -766,10 +766,10 @@ func TestVerifC30(t *testing.T) {
 		ops   []c30op
 		depth int
 	}
-	// quick: base alphabet to depth 6; thorough: base alphabet to depth 7 and the wide alphabet to depth 6
+	// quick: base alphabet to depth 6; thorough: base alphabet to depth 7 and the wide alphabet to depth 5
 	cfgs := []cfg{{"base", c30alphabet(false), r.Pick(6, 7)}}
 	if r.Thorough() || r.Replaying() {
-		cfgs = append(cfgs, cfg{"wide", c30alphabet(true), 6})
+		cfgs = append(cfgs, cfg{"wide", c30alphabet(true), 5})
 	}
 	out := map[string]int64{}
 	var bounds []string
@@ -798,13 +798,16 @@ func TestVerifC30(t *testing.T) {
 		return
 	}
 
-	for _, c := range cfgs {
+	for i, c := range cfgs {
+		if i == 1 {
+			c30strings(r, out) // part B before the secondary configuration
+		}
 		x := &c30x{r: r, cfg: c.name, ops: c.ops, out: out, nt: map[[16]byte]struct{}{}}
 		c30explore(t, r, x, c.depth)
 	}
-
-	// Part B
-	c30strings(r, out)
+	if len(cfgs) == 1 {
+		c30strings(r, out)
+	}
 
 	var oc []string
 	for k, v := range out {
